@@ -99,3 +99,59 @@ func addLateAugments(r *rand.Rand, set *gen.Set) {
 func leafNode(name string) *gen.Node {
 	return &gen.Node{Kw: "leaf", Arg: name, Kids: []*gen.Node{{Kw: "type", Arg: "string"}}}
 }
+
+// addChoiceGrafts makes importing modules (and submodules) graft bare, non-case nodes directly
+// into choices of another module: FixChoice wraps each in an implied case, a node of the tree
+// that has no statement of its own and takes its prefix context from the node it wraps — the
+// augmenting module, not the module of the choice. Call after collidePrefixes so that the two
+// modules' prefix tables differ in meaning, not just in spelling.
+func addChoiceGrafts(r *rand.Rand, set *gen.Set) {
+	seq := 0
+	for _, m := range set.Mods {
+		type tgt struct {
+			mod *gen.Module
+			pfx string
+		}
+		var tgts []tgt
+		for _, o := range m.Imports {
+			if !o.Sub {
+				tgts = append(tgts, tgt{o, m.ImportPrefix[o]})
+			}
+		}
+		if m.Sub && r.Intn(2) == 0 {
+			tgts = append(tgts, tgt{m.Owner, m.Prefix})
+		}
+		for _, t := range tgts {
+			var cands []string
+			for _, p := range t.mod.Paths() {
+				if p.Kw != "choice" {
+					continue
+				}
+				path := ""
+				for i, n := range p.Names {
+					path += "/" + t.pfx + ":" + n
+					if p.ChoiceShorthand[i] && r.Intn(2) == 0 {
+						path = "" // through a shorthand member: needs the late pass; keep some, drop some
+						break
+					}
+				}
+				if path != "" {
+					cands = append(cands, path)
+				}
+			}
+			if len(cands) == 0 || r.Intn(4) == 0 {
+				continue
+			}
+			seq++
+			id := fmt.Sprintf("%s%d", m.Name[:1], seq)
+			a := &gen.Node{Kw: "augment", Arg: cands[r.Intn(len(cands))]}
+			a.Kids = append(a.Kids, leafNode("gl"+id))
+			if r.Intn(2) == 0 {
+				c := &gen.Node{Kw: "container", Arg: "gc" + id}
+				c.Kids = append(c.Kids, leafNode("gw"+id))
+				a.Kids = append(a.Kids, c)
+			}
+			m.Body.Kids = append(m.Body.Kids, a)
+		}
+	}
+}
